@@ -272,7 +272,11 @@ func realExtends(raw json.RawMessage) any {
 
 func judgeExtends(args, real, drv json.RawMessage) *core.Verdict {
 	if why := nonTermination(real); why != "" {
-		return core.Fail("hang@extends", "ApplyExtends does not return on this services graph ("+why+"); the model answers "+string(drv))
+		if again := confirmNonTermination("c01extends", args, 20*time.Second); again != nil && nonTermination(again) == "" {
+			real = again
+		} else {
+			return core.Fail("hang@extends", "ApplyExtends does not return on this services graph ("+why+"); the model answers "+string(drv))
+		}
 	}
 	if v := core.CrashVerdict(real); v != nil {
 		return v
@@ -350,10 +354,14 @@ func judgeInclude(args, real, drv json.RawMessage) *core.Verdict {
 	json.Unmarshal(drv, &d)
 	if why := nonTermination(real); why != "" {
 		// the real loader does not return: a violation of the property whatever the model says
-		if d.Class != "outOfFuel" {
+		if d.Class == "outOfFuel" {
+			return core.Fail("hang@include-override-position", "include graph on which the loader does not return ("+why+"), as the model predicts")
+		}
+		if again := confirmNonTermination("c01include", args, 20*time.Second); again != nil && nonTermination(again) == "" {
+			real = again
+		} else {
 			return core.Fail("hang@include", "include graph on which the loader does not return ("+why+") although the model answers "+d.Class)
 		}
-		return core.Fail("hang@include-override-position", "include graph on which the loader does not return ("+why+"), as the model predicts")
 	}
 	if v := core.CrashVerdict(real); v != nil {
 		return v
